@@ -78,6 +78,11 @@ class Runner:
         if s["type"] == "shipped":
             return nasim.make_benchmark_scenario(s["name"])
         if s["type"] == "bench":
+            if s["seed"] is None:
+                # unseeded: the scenario comes from the current state of
+                # NumPy's global generator, which the harness fixes here
+                np.random.seed(s["np_seed"])
+                return nasim.make_benchmark_scenario(s["name"])
             return nasim.make_benchmark_scenario(s["name"], seed=s["seed"])
         sp = spec_from_canonical(s["spec"])
         if s["route"] == "yaml":
@@ -180,10 +185,16 @@ def make_pair(rng, tier, force=None):
         return {"type": "shipped", "name": name, "modes": modes(),
                 "_spec": corpus.shipped_spec(name)}
 
-    def bench(name, seed):
-        sp, _sc = corpus.generated_case(name, seed)
+    def bench(name, seed, np_seed=None):
+        if seed is None:
+            import nasim
+            from ..spec import spec_from_scenario
+            np.random.seed(np_seed)
+            sp = spec_from_scenario(nasim.make_benchmark_scenario(name))
+        else:
+            sp, _sc = corpus.generated_case(name, seed)
         return {"type": "bench", "name": name, "seed": seed,
-                "modes": modes(), "_spec": sp}
+                "np_seed": np_seed, "modes": modes(), "_spec": sp}
 
     def syn(sp=None):
         sp = sp or synth.synth(rng, "quick", max_hosts=7)
@@ -201,7 +212,8 @@ def make_pair(rng, tier, force=None):
         can = sp.canonical()
         ex_srv = [e["service"] for e in sp.exploits.values()]
         what = rng.choice(["deny", "deny", "rule", "rule", "hostsrv",
-                           "value", "exploit", "scancost"])
+                           "value", "exploit", "exploit", "exploit",
+                           "scancost"])
         if what == "deny" and len(sp.addrs) > 1:
             # one host denies (resp. stops denying) the exploitable
             # services from every other host: matters as soon as it is
@@ -228,14 +240,17 @@ def make_pair(rng, tier, force=None):
                 can["sensitive"][str(tuple(h[0]))] += 1
             h[4] = (h[4] or 0) + 1
         elif what == "exploit":
-            e = can["exploits"][rng.choice(can["exploit_order"])]
             f = rng.choice(["cost", "access", "prob"])
-            if f == "cost":
-                e["cost"] = e["cost"] + 1
-            elif f == "access":
-                e["access"] = 3 - e["access"]
-            else:
-                e["prob"] = 1.0 if e["prob"] < 1 else 0.3
+            names = can["exploit_order"] if rng.random() < 0.6 else \
+                [rng.choice(can["exploit_order"])]
+            for n in names:     # same names, different definitions
+                e = can["exploits"][n]
+                if f == "cost":
+                    e["cost"] = e["cost"] + 1
+                elif f == "access":
+                    e["access"] = 3 - e["access"]
+                else:
+                    e["prob"] = 1.0 if e["prob"] < 1 else 0.3
         else:
             kk = rng.choice(list(can["scan_costs"]))
             can["scan_costs"][kk] = can["scan_costs"][kk] + 1
@@ -256,6 +271,11 @@ def make_pair(rng, tier, force=None):
             name = rng.choice(["tiny-gen", "small-gen", "small-gen-rgoal",
                                "medium-gen"])
             s1, s2 = rng.sample(range(200), 2)
+            if rng.random() < 0.4:
+                # a seeded and an unseeded environment of one benchmark
+                pair = [bench(name, s1), bench(name, None, 5000 + s2)]
+                rng.shuffle(pair)
+                return pair[0], pair[1], "same_layout"
             return bench(name, s1), bench(name, s2), "same_layout"
         sp = synth.synth(rng, "quick", max_hosts=7)
         can = sp.canonical()
@@ -378,16 +398,34 @@ def pair_case(acc, rng, tier, pair_id):
     acc.count("pairs:" + kind.split(":")[0])
     acc.count("pairs_same_layout" if same_layout else
               "pairs_different_layout")
-    # solo baseline repeated in a fresh interpreter for a sample
-    if rng.random() < (0.15 if tier == "quick" else 0.05):
-        fresh = solo_in_child(A, opsA)
-        acc.count("solo_baselines_from_fresh_process")
-        if fresh is not None and fresh != [h64(r) for r in soloA]:
-            acc.violation("solo_trace_differs_between_processes",
-                          "solo_trace_differs_between_processes",
-                          {"pair_kind": kind},
-                          {"kind": "iso", "A": public(A),
-                           "opsA": [list(o) for o in opsA]})
+    # The in-process "solo" runs are not alone in the process (the other
+    # pilot, earlier pairs): for every one-field twin and for a sample of the
+    # other pairs each environment's operations are also executed in a fresh
+    # interpreter, where it really is the only environment.
+    p_fresh = 1.0 if kind.startswith("twin") else \
+        (0.15 if tier == "quick" else 0.05)
+    if rng.random() < p_fresh:
+        for who, src, ops, solo in (("A", A, opsA, soloA),
+                                    ("B", B, opsB, soloB)):
+            fresh = solo_in_child(src, ops)
+            acc.count("solo_baselines_from_fresh_process")
+            acc.evaluations += 1
+            if fresh is not None and fresh != [h64(r) for r in solo]:
+                k = next((i for i, (x, y) in enumerate(
+                    zip(fresh, [h64(r) for r in solo])) if x != y), None)
+                acc.violation(
+                    "trace_differs_from_fresh_process",
+                    "trace_differs_from_fresh_process",
+                    {"pair_kind": kind, "env": who,
+                     "first_differing_operation": k,
+                     "op": list(ops[k]) if k is not None else None,
+                     "note": "environment run after another one was built "
+                     "in the same process vs. alone in a fresh interpreter"},
+                    {"kind": "iso", "A": public(A), "B": public(B),
+                     "opsA": [list(o) for o in opsA],
+                     "opsB": [list(o) for o in opsB],
+                     "schedule": "a" * len(opsA) + "b" * len(opsB),
+                     "shim": False, "fresh": who})
     limit = 70 if short else z["long_merges"]
     n = 0
     for sched in schedules(len(opsA), len(opsB), rng, limit):
@@ -503,8 +541,16 @@ def replay(prop, path):
     rb = Runner(B)
     for o in opsB:
         rb.do(o)
-    interleave(acc, A, B, opsA, opsB, ra.trace, rb.trace, w["schedule"],
-               w["shim"], "replay", 0, [], [])
+    if w.get("fresh"):
+        for who, src_, ops, r in (("A", A, opsA, ra), ("B", B, opsB, rb)):
+            fresh = solo_in_child(src_, ops)
+            if fresh is not None and fresh != [h64(x) for x in r.trace]:
+                acc.violation("trace_differs_from_fresh_process",
+                              "trace_differs_from_fresh_process",
+                              {"env": who}, None)
+    else:
+        interleave(acc, A, B, opsA, opsB, ra.trace, rb.trace, w["schedule"],
+                   w["shim"], "replay", 0, [], [])
     unknown, known = classify(prop, acc.violations)
     for kid, (entry, vs) in known.items():
         print(f"KNOWN-FINDING: property={prop} {entry['what']}")
